@@ -104,6 +104,13 @@ CHECKS = {
                      "(<= 64 MiB peak growth per step), C15_IllegalHandled (a frame the observer classifies as illegal is answered by a close / end / detach carrying an error or by "
                      "tearing the transport down), C15_NoHang (no probe call is left pending at the end).",
                 note="model check: the connection state machine (ConnLife.tla) shows that closing on an illegal frame is compatible with C12; 'other connections unaffected' is not exercised yet"),
+    "C16": dict(technique="TLC model check of recv / send as program-counter machines with a Cancel action at every await (Cancel.tla, incl. the refuted buffer-in-future variant); TLC-enumerated cancellation scripts (CancelGen.tla) executed lock-step with capacity-1 channels and a tiny transport pipe so that sends suspend at internal awaits; traces validated by the TLA+ observer",
+                design="4/C16",
+                text="MC: with the reassembly buffer owned by the link, completed recvs return exactly the deliveries sent whatever is cancelled; enqueued transfers are unique and ordered. "
+                     "Conformance: recv side depth 4 (thorough 5-6) over {recv, cancel, 1-frame, 2-frame halves}, send side depth 3 (4) over 10 events incl. sends cancelled after 30 scheduler "
+                     "turns: C10_Exact / C10_NotBefore on every recv result, C16_NoLoss and C16_NeverPartial at the end, C16_LaterIntact / C07_Fifo / C11_ContinuationId per frame, "
+                     "C08_Wake (not starved of credit) at quiescence.",
+                note="cancellation points are those a script can reach between scheduler turns, not every poll of the future"),
     "C17": dict(technique="TLC model check of channel allocation under the agreed channel-max and of heartbeat / idle time-out over a discrete clock (Limits.tla); TLC-generated channel-max pairs and timing scripts (LimitsGen.tla) executed on the paused tokio clock with 10 ms virtual steps; traces validated by the TLA+ observer",
                 design="4/C17",
                 text="MC: no begin above Min(local, remote); with remote time-out T a frame is written at least every T ticks; with local time-out L the endpoint is down exactly when nothing "
